@@ -36,7 +36,8 @@ PLAN = {
                                             ("d", dict(flags=FF, spellings=[{}, {"ints": True}])),
                                             ("g", dict(flags=[(False, False), (False, True)]))],
                 mc=[("MC_Compile", {"quick": "MC_Compile_caps_quick.cfg", "thorough": "MC_Compile_caps_thorough.cfg"}), ("MC_Compile", {"quick": "MC_Compile_regs_quick.cfg", "thorough": "MC_Compile_regs_thorough.cfg"}), ("MC_C05", {"quick": "MC_C05_quick.cfg", "thorough": "MC_C05_thorough.cfg"})]),
-    "C06": dict(export="Export_C06", parts=[(None, dict(flags=[(False, False), (True, True)], spellings=[{}, {"ints": True}]))],
+    "C06": dict(export="Export_C06", parts=[("m", dict(flags=[(False, False), (True, True)], spellings=[{}, {"ints": True}])),
+                                            ("s", dict(flags=[(False, False), (True, True)], obs=True))],
                 mc=[("MC_Compile", {"quick": "MC_Compile_deref_quick.cfg", "thorough": "MC_Compile_deref_thorough.cfg"}), ("MC_C06", {"quick": "MC_C06_quick.cfg", "thorough": "MC_C06_thorough.cfg"})]),
     "C18": dict(export="Export_C18", parts=[(None, dict(flags=FF))],
                 mc=[("MC_C18", {"quick": "MC_C18_quick.cfg", "thorough": "MC_C18_thorough.cfg"})]),
@@ -48,7 +49,9 @@ PLAN = {
                 mc=[("MC_Scan", {"quick": "MC_Scan.cfg", "thorough": "MC_Scan_thorough.cfg"})]),
     "C12": dict(export="Export_C12", parts=[("m", dict(flags=[(False, False), (True, False)], fresh=True)),
                                             ("n", dict(flags=FF, fresh=True, modes_only=True)),
-                                            ("m", dict(flags=FF, fresh="batch", label="batch"))],
+                                            ("m", dict(flags=FF, fresh="batch", label="batch")),
+                                            # the library's logger at DEBUG level (what `jasm --debug` sets)
+                                            ("m", dict(flags=FF, fresh=True, debug_level=True, label="debug"))],
                 mc=[("MC_Scan", {"quick": "MC_Scan.cfg", "thorough": "MC_Scan_thorough.cfg"})]),
 }
 
@@ -103,7 +106,7 @@ def run_part(report, prop, key, u, opts, tier):
         report.notes.append(f"part {key or 'main'}: {len(pairs)} of {len(job_rules) * len(job_listings)} cases sampled (seed {seed()})")
         report.cov["sampled"] = True
     obs = matchpipe.drive({"rules": job_rules, "listings": job_listings, "pairs": pairs, "want_regex": True,
-                           "fresh": opts.get("fresh", False)}, tag=f"{prop}{key or ''}{opts.get('label', '')}")
+                           "fresh": opts.get("fresh", False), "debug_level": opts.get("debug_level", False)}, tag=f"{prop}{key or ''}{opts.get('label', '')}")
     # binding of the compile-scheme model (JasmCompile): does the real compiler emit the text the model predicts?
     # (never a violation: a harmless refactoring of the emitted text only shows up here as drift)
     seen_rule, same, drift = set(), 0, []
@@ -137,6 +140,9 @@ def run_part(report, prop, key, u, opts, tier):
         if opts.get("rand"):
             for c in cases:
                 c["rand"] = True
+        if opts.get("obs"):            # judged on the operand text of the observed stream (see Trace_Match, c.obs)
+            for c in cases:
+                c["obs"] = True
         if opts.get("nostream"):       # listings of thousands of instructions: the stream is validated by C08/C10
             for c in cases:
                 c["nostream"] = True
